@@ -191,7 +191,8 @@ def run(seed: int, scale: float, driver: str) -> dict:
         reqs = [("specCodes", _declared_of(p)) for p in vis_cases]
         reqs += [("isSharedCore", _comps(r) if r else None, _comps(c)) for r, c in layouts]
         for depth, steps, root, parts, core_dir, root_args in plans:
-            reqs += [("isSharedCore", _comps(r) if r else None, _comps(core_dir)) for r in root_args]
+            reqs += [("isSharedCoreFor", _comps(r) if r else None, _comps(core_dir), [x for x in c.split(".") if x] if c else None)
+                     for r, (c, _p, _k) in zip(root_args, steps)]
         tcodes = list(range(350, 650))
         reqs += [("aliasName", c) for c in tcodes] + [("aliasBase", c) for c in tcodes]
         res = _drive(driver, reqs)
@@ -251,7 +252,7 @@ def run(seed: int, scale: float, driver: str) -> dict:
             seen_clients = set()
             for si, ((client, per_op, _k), root_arg, shm) in enumerate(zip(steps, root_args, sh)):
                 em = ExceptionsEmitter(core_package_name=".".join(parts), overall_project_root=root_arg)
-                shared_py = em._is_shared_core(core_dir)
+                shared_py = em._is_shared_core(core_dir, client) if client else em._is_shared_core(core_dir)
                 comparisons += 1
                 if shared_py != shm:
                     disagree("isSharedCore(step)", {"root": root_arg, "core": core_dir}, shm, shared_py)
